@@ -405,7 +405,10 @@ Section Iteration.
         destruct (bm_get inst (c_srv (s_cache s))); [|constructor; [exact I|constructor]].
         match goal with |- context [find ?f ?l] => destruct (find f l) end;
           [constructor; [exact I|constructor]|constructor]. }
-      destruct (query_unresolved (s_cache s) inst) as [sent o]. simpl in Hq.
+      assert (Hq2 : Forall no_removed (snd (if has_ptr_to (s_cache s) inst then query_unresolved (s_cache s) inst else (false, []))))
+        by (destruct (has_ptr_to (s_cache s) inst); [exact Hq|constructor]).
+      clear Hq. rename Hq2 into Hq.
+      destruct (if has_ptr_to (s_cache s) inst then query_unresolved (s_cache s) inst else (false, [])) as [sent o]. simpl in Hq.
       destruct (sent && retry_guard n max_try); exact Hq.
     - unfold exec_verify. destruct (service_verify_queries (s_cache s) inst None) as [c1 qs].
       destruct qs; simpl; [constructor|constructor; [exact I|constructor]].
